@@ -348,6 +348,15 @@ func decoders() []decoder {
 			dense: func(n int) []byte { // commit with n/36 precommits and no auth data
 				return cat([]byte{1}, make([]byte, 16+36), rep(n/36, make([]byte, 36)), []byte{0})
 			}},
+		// the notifications decoder of the GRANDPA protocol (lib/grandpa Service.decodeMessage): the wrapper
+		// is what createNotificationsMessageHandler caches, hands to the handler and gossips on
+		{name: "consensus_message",
+			decode: func(in []byte) (any, error) {
+				cm := new(network.ConsensusMessage)
+				return cm, cm.Decode(in)
+			},
+			encode: viaEncode,
+			valid:  func(r *vcommon.Rand) []byte { return wire.GenGossip(r, r.Intn(5)).Ref() }},
 		{name: "grandpa_handshake",
 			decode: func(in []byte) (any, error) {
 				hs := new(grandpa.GrandpaHandshake)
@@ -437,7 +446,12 @@ func probe(c *vcommon.Case, d *decoder, mode string, in []byte) (ok bool) {
 	c.Eval(1)
 	c.Count("decodes", 1)
 	c.Count("decodes:"+d.name, 1)
-	o := runDecode(d, in)
+	// the decoder is given a slice of the receive buffer, as in Service.readStream; `in` stays the
+	// caller's untouched copy (witness). The message held from the previous decode has now seen the
+	// next message arrive in its buffer.
+	buf := receive(in)
+	nextReceived(c)
+	o := runDecode(d, buf)
 	if o.pan != nil {
 		w := witness(d, mode, in)
 		w["stack"] = o.stack
@@ -446,7 +460,7 @@ func probe(c *vcommon.Case, d *decoder, mode string, in []byte) (ok bool) {
 	}
 	if o.alloc > allocBudget(len(in)) {
 		// measure again to rule out allocation by an unrelated goroutine
-		if o2 := runDecode(d, in); o2.pan == nil && o2.alloc < o.alloc {
+		if o2 := runDecode(d, buf); o2.pan == nil && o2.alloc < o.alloc {
 			o.alloc = o2.alloc
 		}
 	}
@@ -494,6 +508,7 @@ func probe(c *vcommon.Case, d *decoder, mode string, in []byte) (ok bool) {
 		}()
 	}
 	if d.encode == nil {
+		hold(c, d, mode, in, o.msg, nil)
 		return true
 	}
 	// round trip of the successfully decoded message
@@ -519,6 +534,10 @@ func probe(c *vcommon.Case, d *decoder, mode string, in []byte) (ok bool) {
 		w := witness(d, mode, in)
 		w["decoded"], w["reencoded"] = fmt.Sprintf("%+v", o.msg), wire.Hx(enc)
 		c.Violation("roundtrip", fmt.Sprintf("%s accepted the input but %s of the decoded message failed: %v", d.name, stage, err), w)
+		if stage == "encode" {
+			enc = nil
+		}
+		hold(c, d, mode, in, o.msg, enc)
 		return true
 	}
 	if !eqv(reflect.ValueOf(o.msg), reflect.ValueOf(m2)) {
@@ -527,6 +546,8 @@ func probe(c *vcommon.Case, d *decoder, mode string, in []byte) (ok bool) {
 		c.Violation("roundtrip", fmt.Sprintf("%s: Decode(Encode(m)) != m for the accepted message", d.name), w)
 	}
 	c.Count("roundtrips", 1)
+	// the message is now held while its receive buffer is written to and reused
+	hold(c, d, mode, in, o.msg, enc)
 	return true
 }
 
@@ -841,10 +862,28 @@ func TestVerifC33(t *testing.T) {
 	r.Floor("rejected", 20000)
 	r.Floor("dense_messages", 8)
 	r.Floor("pb_field_mutants", 200)
+	// buffer reuse: every decoder's accepted messages re-checked after the receive buffer was filled
+	// with 0xFF and after the next message arrived in it; messages with a non-empty byte-slice field
+	// among them (for the decoders whose message type has such fields); writes to decoded fields
+	for i := range ds {
+		r.Floor("recheck_ff:"+ds[i].name, 50)
+		if ds[i].name == "consensus_message" && r.IsOpen("C33-K1") {
+			continue // known finding: the wrapper does not survive the 0xFF overwrite, it is not held any longer
+		}
+		r.Floor("recheck_next:"+ds[i].name, 50)
+	}
+	for _, name := range []string{"block_announce", "transaction", "block_response", "state_request", "state_response",
+		"light_request", "light_response", "consensus_message", "body", "justification"} {
+		r.Floor("rechecked_with_bytes:"+name, 40)
+	}
+	r.Floor("rechecked_with_bytes", 5000)
+	r.Floor("field_writes", 5000)
 
 	fc := fixedCorpus()
 	r.Fixed("corpus", len(fc), func(c *vcommon.Case) {
 		f := fc[c.Idx]
+		beginCase()
+		defer flushHeld(c)
 		ok := probe(c, byName[f.dec], "corpus", f.in)
 		c.Distinct("corpus|" + f.dec + "|" + f.note)
 		c.Sample(map[string]any{"decoder": f.dec, "input": f.note, "accepted": ok})
@@ -863,6 +902,8 @@ func TestVerifC33(t *testing.T) {
 	}
 	r.Fixed("dense", len(dense)*len(sizes), func(c *vcommon.Case) {
 		d, n := dense[c.Idx/len(sizes)], sizes[c.Idx%len(sizes)]
+		beginCase()
+		defer flushHeld(c)
 		in := d.dense(n)
 		ok := probe(c, d, "dense", in)
 		c.Count("dense_messages", 1)
@@ -881,7 +922,9 @@ func TestVerifC33(t *testing.T) {
 		d := &ds[c.Idx%len(ds)]
 		mode := (c.Idx / len(ds)) % nModes
 		before := accepted
+		beginCase()
 		runMode(c, d, mode)
+		flushHeld(c)
 		// fingerprint: decoder, mutation mode, how many mutants were accepted (log2 bucket)
 		c.Distinct(fmt.Sprintf("%s|%s|%d", d.name, modeNames[mode], bits.Len(uint(accepted-before))))
 	})
